@@ -12,7 +12,9 @@
 (*         fh: "default"|"empty"|"star", hm: "drop"|"refuse"|"dangerous",  *)
 (*         ssh: "default"|"empty", pp: BOOLEAN, pa: like fa,               *)
 (*         pline: BOOLEAN (PROXY line before request 1), idx: 1|2,         *)
-(*         decl: BOOLEAN (the address a PROXY line declares is itself in   *)
+(*         pline2: BOOLEAN (a PROXY line in front of request 2 of a keep-alive connection: not the connection
+           preamble any more, it is a malformed request line),
+           decl: BOOLEAN (the address a PROXY line declares is itself in   *)
 (*         forwarded_allow_ips - it is not the peer, so it grants nothing),*)
 (*         wk: "sync"|"gthread"|"async", hs: Seq(header kind)]             *)
 (* obs  = [out: "app"|"reject", scheme, sn (SCRIPT_NAME is not empty, i.e.   *)
@@ -74,18 +76,21 @@ Ambiguous(c, kept) ==
 
 (* is the PROXY information in force for this request? *)
 ProxyInForce(c) ==
-  /\ c.pp /\ c.pline /\ TrustedPP(c)
-  /\ \/ c.idx = 1
-     \/ c.wk = "async"
-     \/ (c.wk = "gthread" /\ "NoProxyCarryGthread" \notin Dev)
+  \/ (c.pp /\ c.pline2 /\ c.idx = 2 /\ "LatePlineAccepted" \in Dev)
+  \/ /\ c.pp /\ c.pline /\ TrustedPP(c)
+     /\ \/ c.idx = 1
+        \/ c.wk = "async"
+        \/ (c.wk = "gthread" /\ "NoProxyCarryGthread" \notin Dev)
 
 Model(c) ==
   LET w == Walk(c, c.hs, "none", <<>>, TRUE)
       \* request 1 with a PROXY line: refused if proxy protocol is on and the peer is not allowed;
       \* if proxy protocol is off the line is just a malformed request line
       plineReject == c.pline /\ (~c.pp \/ ~TrustedPP(c))
-      \* sync workers serve one request per connection: idx 2 does not exist
-      noSuch == c.idx = 2 /\ (c.wk = "sync" \/ plineReject)
+      \* sync workers serve one request per connection: idx 2 does not exist; a PROXY line in front of request 2 is
+      \* read as a request line and refused ("LatePlineAccepted": Request.proxy_protocol() also runs for later requests,
+      \* without the allow-list check)
+      noSuch == c.idx = 2 /\ (c.wk = "sync" \/ plineReject \/ (c.pline2 /\ ~(c.pp /\ "LatePlineAccepted" \in Dev)))
   IN IF noSuch \/ (c.idx = 1 /\ plineReject) \/ ~w.ok
      THEN [out |-> "reject", scheme |-> "http", sn |-> FALSE, addr |-> "peer", amb |-> FALSE]
      ELSE [out |-> "app",
@@ -118,12 +123,15 @@ Seqs(K, n) == UNION {[1..k -> K] : k \in 0..n}
 Peers == {"listed", "unlisted", "unix"}
 Allow == {"none", "listed", "star"}
 Base == [peer |-> "listed", fa |-> "listed", fh |-> "default", hm |-> "drop", ssh |-> "default", pp |-> FALSE,
-         pa |-> "listed", pline |-> FALSE, idx |-> 1, wk |-> "sync", hs |-> <<>>, decl |-> FALSE]
+         pa |-> "listed", pline |-> FALSE, idx |-> 1, wk |-> "sync", hs |-> <<>>, decl |-> FALSE, pline2 |-> FALSE]
 (* proxy-protocol product (headers <= 1) *)
 CasesA == {[Base EXCEPT !.peer = p, !.pp = pp, !.pa = pa, !.pline = pl, !.idx = i, !.wk = w, !.hs = hs, !.fa = fa, !.decl = d] :
              p \in Peers, pp \in BOOLEAN, pa \in Allow, pl \in BOOLEAN, i \in {1, 2},
              w \in {"sync", "gthread", "async"}, hs \in Seqs({"proto_s", "sn", "cu", "plain"}, 1), fa \in Allow,
              d \in BOOLEAN}
+          \cup {[Base EXCEPT !.peer = p, !.pp = pp, !.pa = pa, !.pline = pl, !.idx = 2, !.wk = w, !.hs = hs, !.fa = "star", !.pline2 = TRUE] :
+             p \in Peers, pp \in BOOLEAN, pa \in Allow, pl \in BOOLEAN,
+             w \in {"gthread", "async"}, hs \in Seqs({"plain"}, 1)}
 (* header product (proxy protocol off) *)
 CasesB == {[Base EXCEPT !.peer = p, !.fa = fa, !.fh = fh, !.hm = hm, !.ssh = ssh, !.wk = w, !.hs = hs] :
              p \in Peers, fa \in Allow, fh \in {"default", "empty", "star"}, hm \in {"drop", "refuse", "dangerous"},
